@@ -32,6 +32,12 @@ impl Transaction {
             r is Ok && is_pending_scope(scope) ==> r->Ok_0 == pending(*old(self)).contains(*key),
     { unimplemented!() }
     #[verifier::external_body]
+    pub fn move_value(&mut self, from_scope: Option<&Ident>, from_key: &Ident, to_scope: Option<&Ident>, to_key: &Ident) -> (r: Result<(), KeyValueError>)
+        ensures
+            r is Ok && is_running_scope(from_scope) && is_pending_scope(to_scope) ==> running(*final(self)) == running(*old(self)).remove(*from_key) && pending(*final(self)) == pending(*old(self)).insert(*to_key),
+            r is Err ==> running(*final(self)) == running(*old(self)) && pending(*final(self)) == pending(*old(self)),
+    { unimplemented!() }
+    #[verifier::external_body]
     pub fn store(&mut self, scope: Option<&Ident>, key: &Ident, value: &Value) -> (r: Result<(), KeyValueError>)
         ensures
             r is Ok && is_pending_scope(scope) ==> pending(*final(self)) == pending(*old(self)).insert(*key) && running(*final(self)) == running(*old(self)),
@@ -110,6 +116,15 @@ def build():
                      ensures=[
                          ('finished_entry_removed', 'r is Ok && r->Ok_0 is Ok ==> running(*final(store)) == running(*old(store)).remove(*storage_key) && pending(*final(store)) == pending(*old(store))'),
                          ('refused_only_if_not_running', 'r is Ok && r->Ok_0 is Err ==> !running(*old(store)).contains(*storage_key) && running(*final(store)) == running(*old(store)) && pending(*final(store)) == pending(*old(store))'),
+                     ]),
+        # re-scheduling a running task (retry later / restart) only moves that entry: a pending entry of the same task that was
+        # scheduled in the meantime -- possibly for an earlier time, with a newer value -- stays ("keeps the earlier of the two times")
+        U.closure_fn(Q, 'Queue', 'reschedule_running_task', 0, 'vx_reschedule_running_tx',
+                     '(&self, store: &mut Transaction, storage_key: &Ident, name: &Ident, new_key: Box<Ident>) -> (r: Result<(), KeyValueError>)',
+                     ensures=[
+                         ('running_entry_becomes_pending', 'r is Ok ==> running(*final(store)) == running(*old(store)).remove(*storage_key) && pending(*final(store)).contains(*new_key)'),
+                         ('pending_entries_stay', 'forall |k: Ident| pending(*old(store)).contains(k) ==> #[trigger] pending(*final(store)).contains(k)'),
+                         ('nothing_else_becomes_pending', 'forall |k: Ident| #[trigger] pending(*final(store)).contains(k) ==> pending(*old(store)).contains(k) || k == *new_key'),
                      ]),
         U.closure_fn(Q, 'Queue', 'schedule_task', 0, 'vx_schedule_task_tx',
                      '(&self, store: &mut Transaction, name: &Ident, value: &serde_json::Value, timestamp_millis: Option<u128>, mode: ScheduleMode) -> (r: Result<(), KeyValueError>)',
